@@ -86,6 +86,7 @@ Qed.
 Section Conv.
 Variable mfa : str -> option str.
 Variable cfg : scfg.
+Variable srcok : str -> nat -> bool.
 Variable base : list str.
 
 Lemma find_entry st mb e :
@@ -138,19 +139,20 @@ Definition conv_op (op : cop) : bool :=
     store is well-formed ([SInv], an invariant of every reachable store: C07) and the
     canonical mailbox name the server reports addresses itself (C04: names are fixed points). *)
 Lemma client_convenience_effect st op mb :
+  (forall m k, srcok m k = true) ->
   conv_op op = true -> good_name (cop_name op) -> op_id_ok op -> Forall good_seg base ->
   mfa (cop_name op) = Some mb -> good_name mb -> mfa mb = Some mb -> SInv st ->
-  spec_cop mfa cfg st op = Some (client_do mfa cfg base (join_slash base) st op).
+  spec_cop mfa cfg st op = Some (client_do mfa cfg srcok base (join_slash base) st op).
 Proof.
-  intros B GN GI GB M GM MM S.
-  pose proof (fun o b => client_op_effect mfa cfg base st o mb b) as CE.
+  intros SK B GN GI GB M GM MM S.
+  pose proof (fun o b => client_op_effect mfa cfg srcok base st o mb SK b) as CE.
   destruct op; try discriminate; cbn [cop_name op_id_ok] in *.
   - (* MessageHeader.GetMessage *)
     pose proof (CE (CList name) eq_refl GN I GB M) as L. cbn [client_do] in L.
     unfold spec_cop in *. cbn [cop_name] in *. rewrite M in *. cbn [client_do]. injection L as L'. rewrite <- L'. clear L'.
     cbn [exec_spec list_res]. destruct (nth_view (map view_of (box mb (live st))) i) as [v|] eqn:N; [|reflexivity].
     destruct (nth_view_entry _ _ _ _ N) as [e [He ->]]. cbn [view_of fst].
-    pose proof (client_op_effect mfa cfg base st (CGet mb (id_of_k (e_k e))) mb eq_refl GM (good_seg_id _) GB MM) as G.
+    pose proof (client_op_effect mfa cfg srcok base st (CGet mb (id_of_k (e_k e))) mb SK eq_refl GM (good_seg_id _) GB MM) as G.
     unfold spec_cop in G. cbn [cop_name client_do] in G. rewrite MM in G. injection G as G'. rewrite <- G'.
     rewrite (spec_get_id st mb e S He). reflexivity.
   - (* MessageHeader.GetSource *)
@@ -158,7 +160,7 @@ Proof.
     unfold spec_cop in *. cbn [cop_name] in *. rewrite M in *. cbn [client_do]. injection L as L'. rewrite <- L'. clear L'.
     cbn [exec_spec list_res]. destruct (nth_view (map view_of (box mb (live st))) i) as [v|] eqn:N; [|reflexivity].
     destruct (nth_view_entry _ _ _ _ N) as [e [He ->]]. cbn [view_of fst].
-    pose proof (client_op_effect mfa cfg base st (CSrc mb (id_of_k (e_k e))) mb eq_refl GM (good_seg_id _) GB MM) as G.
+    pose proof (client_op_effect mfa cfg srcok base st (CSrc mb (id_of_k (e_k e))) mb SK eq_refl GM (good_seg_id _) GB MM) as G.
     unfold spec_cop in G. cbn [cop_name client_do] in G. rewrite MM in G. injection G as G'. rewrite <- G'.
     rewrite (spec_get_id st mb e S He). reflexivity.
   - (* MessageHeader.Delete *)
@@ -166,7 +168,7 @@ Proof.
     unfold spec_cop in *. cbn [cop_name] in *. rewrite M in *. cbn [client_do]. injection L as L'. rewrite <- L'. clear L'.
     cbn [exec_spec list_res]. destruct (nth_view (map view_of (box mb (live st))) i) as [v|] eqn:N; [|reflexivity].
     destruct (nth_view_entry _ _ _ _ N) as [e [He ->]]. cbn [view_of fst].
-    pose proof (client_op_effect mfa cfg base st (CDel mb (id_of_k (e_k e))) mb eq_refl GM (good_seg_id _) GB MM) as G.
+    pose proof (client_op_effect mfa cfg srcok base st (CDel mb (id_of_k (e_k e))) mb SK eq_refl GM (good_seg_id _) GB MM) as G.
     unfold spec_cop in G. cbn [cop_name client_do] in G. rewrite MM in G. injection G as G'. rewrite <- G'.
     rewrite lit_handle_k. reflexivity.
   - (* Message.GetSource *)
@@ -174,7 +176,7 @@ Proof.
     unfold spec_cop in *. cbn [cop_name] in *. rewrite M in *. cbn [client_do]. injection L as L'. rewrite <- L'. clear L'.
     destruct (spec_get cfg st mb id) as [v| |] eqn:G0; try reflexivity.
     destruct (spec_get_entry st mb id v G0) as [e [He ->]]. cbn [view_of fst].
-    pose proof (client_op_effect mfa cfg base st (CSrc mb (id_of_k (e_k e))) mb eq_refl GM (good_seg_id _) GB MM) as G.
+    pose proof (client_op_effect mfa cfg srcok base st (CSrc mb (id_of_k (e_k e))) mb SK eq_refl GM (good_seg_id _) GB MM) as G.
     unfold spec_cop in G. cbn [cop_name client_do] in G. rewrite MM in G. injection G as G'. rewrite <- G'.
     rewrite (spec_get_id st mb e S He). reflexivity.
   - (* Message.Delete *)
@@ -182,7 +184,7 @@ Proof.
     unfold spec_cop in *. cbn [cop_name] in *. rewrite M in *. cbn [client_do]. injection L as L'. rewrite <- L'. clear L'.
     destruct (spec_get cfg st mb id) as [v| |] eqn:G0; try reflexivity.
     destruct (spec_get_entry st mb id v G0) as [e [He ->]]. cbn [view_of fst].
-    pose proof (client_op_effect mfa cfg base st (CDel mb (id_of_k (e_k e))) mb eq_refl GM (good_seg_id _) GB MM) as G.
+    pose proof (client_op_effect mfa cfg srcok base st (CDel mb (id_of_k (e_k e))) mb SK eq_refl GM (good_seg_id _) GB MM) as G.
     unfold spec_cop in G. cbn [cop_name client_do] in G. rewrite MM in G. injection G as G'. rewrite <- G'.
     rewrite lit_handle_k. reflexivity.
 Qed.
